@@ -2,6 +2,7 @@
 // UBJSON max_items, claimed lengths vs. memory actually requested (allocation meter), and
 // stack-safety of copy/compare/dump/destroy on deeply nested values (small fixed thread stack).
 #include "harness.hpp"
+#include <map>
 #include "jconv.hpp"
 #include "binval.hpp"
 #include <jsoncons/json.hpp>
@@ -121,6 +122,17 @@ int main(int argc, char** argv) {
             if (f == "msgpack" && kind.find("undeclared") != std::string::npos) return;   // MessagePack has no indefinite containers: the encoder requires a length
             bool ok = encode_with_limit(f, kind, depth, limit, err);
             if (ok != c["accept"].as_bool()) fail(idx, c, ok ? "encoder-wrote-too-deep" : "encoder-refused-within-limit", err);
+            // the same nest held in a json value and written through dump / encode_X (declared lengths)
+            if (kind.find("undeclared") == std::string::npos) {
+                bool obj = kind.rfind("object", 0) == 0; json v(1);
+                for (long i = 0; i < depth; ++i) { if (obj) { json o(json_object_arg); o.try_emplace("a", std::move(v)); v = std::move(o); } else { json a(json_array_arg); a.push_back(std::move(v)); v = std::move(a); } }
+                std::string e2; std::vector<uint8_t> out; std::string text;
+                bool ok2 = accepted([&] { if (f == "cbor") cbor::encode_cbor(v, out, cbor::cbor_options{}.max_nesting_depth(limit)); else if (f == "msgpack") msgpack::encode_msgpack(v, out, msgpack::msgpack_options{}.max_nesting_depth(limit));
+                                          else if (f == "ubjson") ubjson::encode_ubjson(v, out, ubjson::ubjson_options{}.max_nesting_depth(limit)); else if (f == "bson") bson::encode_bson(v, out, bson::bson_options{}.max_nesting_depth(limit));
+                                          else { v.dump(text, json_options{}.max_nesting_depth(limit)); std::string t2; v.dump_pretty(t2, json_options{}.max_nesting_depth(limit)); } }, e2);
+                if (ok2 != c["accept"].as_bool()) fail(idx, c, ok2 ? "dump-wrote-too-deep" : "dump-refused-within-limit", e2);
+                else if (!ok2 && e2.find("nesting") == std::string::npos) fail(idx, c, "dump-refused-without-the-nesting-error", e2);
+            }
         } else if (k == "maxitems") {
             long n = (long)c["count"].as_int(); size_t m = (size_t)c["maxitems"].as_int(); const std::string& kind = c["kind"].str();
             std::vector<uint8_t> in;
@@ -142,6 +154,16 @@ int main(int argc, char** argv) {
             peak = g_peak.load() - base;
             if (ok2) fail(idx, c, "claim-beyond-supply-accepted-stream", "");
             if (peak > bound + 65536) fail(idx, c, "memory-proportional-to-claim-stream", "peak=" + std::to_string(peak));
+            // the same decoded straight into C++ containers (decode_traits): no allocation for the claimed length either
+            auto typed = [&](const char* what, auto tag) {
+                using T = decltype(tag); base = g_cur.load(); g_peak.store(base); std::string e3; bool threw_foreign = false;
+                try { if (f == "cbor") cbor::decode_cbor<T>(in); else if (f == "msgpack") msgpack::decode_msgpack<T>(in); else if (f == "ubjson") ubjson::decode_ubjson<T>(in); else if (f == "bson") bson::decode_bson<T>(in); else { std::string t(in.begin(), in.end()); decode_json<T>(t); } }
+                catch (const json_exception&) {} catch (const std::exception& e) { threw_foreign = true; e3 = e.what(); }
+                long long pk = g_peak.load() - base;
+                if (threw_foreign) fail(idx, c, std::string("claim-typed-decode-foreign-exception-") + what, e3);
+                if (pk > bound) fail(idx, c, std::string("memory-proportional-to-claim-typed-") + what, "peak=" + std::to_string(pk) + " bound=" + std::to_string(bound));
+            };
+            typed("vector<int64>", std::vector<int64_t>{}); typed("vector<string>", std::vector<std::string>{}); typed("map<string,int>", std::map<std::string, int>{}); typed("vector<vector<double>>", std::vector<std::vector<double>>{});
         } else if (k == "deep") {
             DeepJob job{c["op"].str(), (long)c["depth"].as_int(), false, ""};
             pthread_attr_t at; pthread_attr_init(&at); pthread_attr_setstacksize(&at, 1 << 20);     // 1 MiB
